@@ -358,6 +358,13 @@ impl LexiconReader {
             return rec.ctx.err(BuildFailure::EmptySurface);
         }
 
+        if surface.contains('\0') {
+            // NUL terminates keys in the trie, such a surface can't be indexed
+            return rec
+                .ctx
+                .err(BuildFailure::InvalidCharLiteral("\\u0000 in surface".to_owned()));
+        }
+
         self.ctx = rec.ctx;
 
         let entry = RawLexiconEntry {
